@@ -1,5 +1,5 @@
 /-
-Color488Code, square sizes `L ≥ 1`: the triangular-probe certificate for the family `sel`
+Color488Code, all sizes `Lx, Ly ≥ 1`: the triangular-probe certificate for the family `sel`
 (`Proofs/LatColor488CodeRank.lean`): every probe is a corner of its own face, and a face `t ≠ s`
 containing the probe of `s` is one of the two other faces around that qubit, which are removed or
 of strictly smaller rank.  Core Lean only.
@@ -12,10 +12,10 @@ set_option linter.unusedSimpArgs false
 namespace Panqec.Color488Code
 open Panqec.Lat2D Panqec.Color
 
-theorem probe_mem_own {L : Nat} (hL : 1 ≤ L) {x y : Int} (hc : IsC L x y)
-    (h1 : ¬ (x = 0 ∧ y = 4)) (h2 : ¬ (x = 4 ∧ y = 0)) : probeQubit x y ∈ supp L x y := by
+theorem probe_mem_own {Lx Ly : Nat} (hx : 1 ≤ Lx) (hy : 1 ≤ Ly) {x y : Int} (hc : IsC Lx Ly x y)
+    (h1 : ¬ (x = 0 ∧ y = 4)) (h2 : ¬ (x = 4 ∧ y = 0)) : probeQubit x y ∈ supp Lx Ly x y := by
   unfold supp
-  rcases probeQubit_spec hL hc h1 h2 with ⟨_, h8, e⟩ | ⟨_, h8, e⟩ | ⟨hx, hy, e⟩ | ⟨_, _, h8, e⟩ |
+  rcases probeQubit_spec hx hy hc h1 h2 with ⟨_, h8, e⟩ | ⟨_, h8, e⟩ | ⟨hx0, hy0, e⟩ | ⟨_, _, h8, e⟩ |
     ⟨_, _, h8, e⟩ | ⟨_, _, h8, e⟩ | ⟨_, _, h8, e⟩
   · rw [e, if_pos h8]; simp [sqC]
   · rw [e, if_neg h8]; simp [ocC]
@@ -25,88 +25,88 @@ theorem probe_mem_own {L : Nat} (hL : 1 ≤ L) {x y : Int} (hc : IsC L x y)
   · rw [e, if_pos h8]; simp [sqC]
   · rw [e, if_neg h8]; simp [ocC]
 
-theorem isC_isF {L : Nat} {x y : Int} (h : IsC L x y) : IsF L x y := by
+theorem isC_isF {Lx Ly : Nat} {x y : Int} (h : IsC Lx Ly x y) : IsF Lx Ly x y := by
   unfold IsC at h; unfold IsF; omega
 
 /-- a selected face of rank at least that of `s`, other than `s`, does not contain the probe of `s` -/
-theorem probe_not_mem {L : Nat} (hL : 1 ≤ L) {x y x' y' : Int} (hc : IsC L x y)
-    (h1 : ¬ (x = 0 ∧ y = 4)) (h2 : ¬ (x = 4 ∧ y = 0)) (hc' : IsC L x' y')
+theorem probe_not_mem {Lx Ly : Nat} (hx : 1 ≤ Lx) (hy : 1 ≤ Ly) {x y x' y' : Int} (hc : IsC Lx Ly x y)
+    (h1 : ¬ (x = 0 ∧ y = 4)) (h2 : ¬ (x = 4 ∧ y = 0)) (hc' : IsC Lx Ly x' y')
     (h1' : ¬ (x' = 0 ∧ y' = 4)) (h2' : ¬ (x' = 4 ∧ y' = 0)) (hne : ¬ (x = x' ∧ y = y'))
-    (hle : rankI L x y ≤ rankI L x' y') : probeQubit x y ∉ supp L x' y' := by
+    (hle : rankI Lx Ly x y ≤ rankI Lx Ly x' y') : probeQubit x y ∉ supp Lx Ly x' y' := by
   intro hmem
-  have h4x := diff_mod4 (L := L) hc.1 hc'.1
-  have h4y := diff_mod4 (L := L) hc.2.1 hc'.2.1
-  have rs := rankI_spec L x y
-  have rt := rankI_spec L x' y'
+  have h4x := diff_mod4 (L := Lx) hc.1 hc'.1
+  have h4y := diff_mod4 (L := Ly) hc.2.1 hc'.2.1
+  have rs := rankI_spec Lx Ly x y
+  have rt := rankI_spec Lx Ly x' y'
   unfold IsC at hc hc'
-  have hex := emod_diff (m := 8 * (L : Int)) (a := x) (b := x') (by omega) (by omega) (by omega)
+  have hex := emod_diff (m := 8 * (Lx : Int)) (a := x) (b := x') (by omega) (by omega) (by omega)
     (by omega)
-  have hey := emod_diff (m := 8 * (L : Int)) (a := y) (b := y') (by omega) (by omega) (by omega)
+  have hey := emod_diff (m := 8 * (Ly : Int)) (a := y) (b := y') (by omega) (by omega) (by omega)
     (by omega)
   unfold supp at hmem
   by_cases h8' : (x' + y') % 8 = 0
   · rw [if_pos h8'] at hmem
-    rcases probeQubit_spec hL (by unfold IsC; omega) h1 h2 with ⟨_, h8, e⟩ | ⟨_, h8, e⟩ |
-      ⟨hx, hy, e⟩ | ⟨_, _, h8, e⟩ | ⟨_, _, h8, e⟩ | ⟨_, _, h8, e⟩ | ⟨_, _, h8, e⟩
-    · rw [e, ss3 hL h4x h4y] at hmem; omega
-    · rw [e, os6 hL h4x h4y] at hmem; omega
-    · rw [e, ss2 hL h4x h4y] at hmem; omega
-    · rw [e, ss4 hL h4x h4y] at hmem; omega
-    · rw [e, os1 hL h4x h4y] at hmem; omega
-    · rw [e, ss1 hL h4x h4y] at hmem; omega
-    · rw [e, os8 hL h4x h4y] at hmem; omega
+    rcases probeQubit_spec hx hy (by unfold IsC; omega) h1 h2 with ⟨_, h8, e⟩ | ⟨_, h8, e⟩ |
+      ⟨hx0, hy0, e⟩ | ⟨_, _, h8, e⟩ | ⟨_, _, h8, e⟩ | ⟨_, _, h8, e⟩ | ⟨_, _, h8, e⟩
+    · rw [e, ss3 hx hy h4x h4y] at hmem; omega
+    · rw [e, os6 hx hy h4x h4y] at hmem; omega
+    · rw [e, ss2 hx hy h4x h4y] at hmem; omega
+    · rw [e, ss4 hx hy h4x h4y] at hmem; omega
+    · rw [e, os1 hx hy h4x h4y] at hmem; omega
+    · rw [e, ss1 hx hy h4x h4y] at hmem; omega
+    · rw [e, os8 hx hy h4x h4y] at hmem; omega
   · rw [if_neg h8'] at hmem
-    rcases probeQubit_spec hL (by unfold IsC; omega) h1 h2 with ⟨_, h8, e⟩ | ⟨_, h8, e⟩ |
-      ⟨hx, hy, e⟩ | ⟨_, _, h8, e⟩ | ⟨_, _, h8, e⟩ | ⟨_, _, h8, e⟩ | ⟨_, _, h8, e⟩
-    · rw [e, so3 hL h4x h4y] at hmem; omega
-    · rw [e, oo6 hL h4x h4y] at hmem; omega
-    · rw [e, so2 hL h4x h4y] at hmem; omega
-    · rw [e, so4 hL h4x h4y] at hmem; omega
-    · rw [e, oo1 hL h4x h4y] at hmem; omega
-    · rw [e, so1 hL h4x h4y] at hmem; omega
-    · rw [e, oo8 hL h4x h4y] at hmem; omega
+    rcases probeQubit_spec hx hy (by unfold IsC; omega) h1 h2 with ⟨_, h8, e⟩ | ⟨_, h8, e⟩ |
+      ⟨hx0, hy0, e⟩ | ⟨_, _, h8, e⟩ | ⟨_, _, h8, e⟩ | ⟨_, _, h8, e⟩ | ⟨_, _, h8, e⟩
+    · rw [e, so3 hx hy h4x h4y] at hmem; omega
+    · rw [e, oo6 hx hy h4x h4y] at hmem; omega
+    · rw [e, so2 hx hy h4x h4y] at hmem; omega
+    · rw [e, so4 hx hy h4x h4y] at hmem; omega
+    · rw [e, oo1 hx hy h4x h4y] at hmem; omega
+    · rw [e, so1 hx hy h4x h4y] at hmem; omega
+    · rw [e, oo8 hx hy h4x h4y] at hmem; omega
 
-theorem rankI_nonneg {L : Nat} {x y : Int} (hc : IsC L x y) : 0 ≤ rankI L x y := by
-  have := rankI_spec L x y
+theorem rankI_nonneg {Lx Ly : Nat} {x y : Int} (hc : IsC Lx Ly x y) : 0 ≤ rankI Lx Ly x y := by
+  have := rankI_spec Lx Ly x y
   unfold IsC at hc
   omega
 
-theorem probe_count {L : Nat} (hL : 1 ≤ L) {x y p x' y' p' : Int} (ht : [x', y', p'] ∈ stabs L L) :
-    opAntiCount [probe [x, y, p]] ((lattice L L).getStab [x', y', p']) =
-      if Pauli.anti (probe [x, y, p]).2 (letter p') = true ∧ (probe [x, y, p]).1 ∈ supp L x' y'
+theorem probe_count {Lx Ly : Nat} (hx : 1 ≤ Lx) (hy : 1 ≤ Ly) {x y p x' y' p' : Int} (ht : [x', y', p'] ∈ stabs Lx Ly) :
+    opAntiCount [probe [x, y, p]] ((lattice Lx Ly).getStab [x', y', p']) =
+      if Pauli.anti (probe [x, y, p]).2 (letter p') = true ∧ (probe [x, y, p]).1 ∈ supp Lx Ly x' y'
       then 1 else 0 := by
-  rw [getStab_eq hL ht]
+  rw [getStab_eq hx hy ht]
   exact opAntiCount_probe _ _ _ _
 
-theorem triangular {L : Nat} (hL : 1 ≤ L) :
-    TriangularProbes (lattice L L) (sel L) probe (rankOf L) where
+theorem triangular {Lx Ly : Nat} (hx : 1 ≤ Lx) (hy : 1 ≤ Ly) :
+    TriangularProbes (lattice Lx Ly) (sel Lx Ly) probe (rankOf Lx Ly) where
   on_qubits := by
     intro s hs
     obtain ⟨x, y, p, rfl, hc, h1, h2, _⟩ := mem_sel.mp hs
     refine ⟨?_, by show (if p = 0 then Pauli.Z else Pauli.X) ≠ Pauli.I; by_cases hp : p = 0 <;> simp [hp]⟩
-    show probeQubit x y ∈ qubits L L
-    exact (mem_qubits_faces hL).mpr ⟨x, y, isC_isF hc, probe_mem_own hL hc h1 h2⟩
+    show probeQubit x y ∈ qubits Lx Ly
+    exact (mem_qubits_faces hx hy).mpr ⟨x, y, isC_isF hc, probe_mem_own hx hy hc h1 h2⟩
   diag := by
     intro s hs
     obtain ⟨x, y, p, rfl, hc, h1, h2, _⟩ := mem_sel.mp hs
-    rw [probe_count hL (sel_subset _ hs)]
+    rw [probe_count hx hy (sel_subset _ hs)]
     have ha : Pauli.anti (probe [x, y, p]).2 (letter p) = true := by
       show Pauli.anti (if p = 0 then Pauli.Z else Pauli.X) (letter p) = true
       unfold letter; by_cases hp : p = 0 <;> simp [hp] <;> decide
-    rw [if_pos ⟨ha, probe_mem_own hL hc h1 h2⟩]
+    rw [if_pos ⟨ha, probe_mem_own hx hy hc h1 h2⟩]
   later := by
     intro s hs t ht hne hle
     obtain ⟨x, y, p, rfl, hc, h1, h2, hp⟩ := mem_sel.mp hs
     obtain ⟨x', y', p', rfl, hc', h1', h2', hp'⟩ := mem_sel.mp ht
-    rw [probe_count hL (sel_subset _ ht)]
+    rw [probe_count hx hy (sel_subset _ ht)]
     by_cases hpp : p = p'
     · subst hpp
       have hne' : ¬ (x = x' ∧ y = y') := fun e => hne (by rw [e.1, e.2])
-      have hle' : rankI L x y ≤ rankI L x' y' := by
+      have hle' : rankI Lx Ly x y ≤ rankI Lx Ly x' y' := by
         have a := rankI_nonneg hc; have b := rankI_nonneg hc'
-        have : (rankI L x y).toNat ≤ (rankI L x' y').toNat := hle
+        have : (rankI Lx Ly x y).toNat ≤ (rankI Lx Ly x' y').toNat := hle
         omega
-      have hm := probe_not_mem hL hc h1 h2 hc' h1' h2' hne' hle'
+      have hm := probe_not_mem hx hy hc h1 h2 hc' h1' h2' hne' hle'
       rw [if_neg (fun e => hm e.2)]
     · have ha : Pauli.anti (probe [x, y, p]).2 (letter p') = false := by
         show Pauli.anti (if p = 0 then Pauli.Z else Pauli.X) (letter p') = false
@@ -115,8 +115,8 @@ theorem triangular {L : Nat} (hL : 1 ≤ L) :
           first | (exact absurd rfl hpp) | decide
       rw [if_neg (fun e => by rw [ha] at e; exact absurd e.1 (by decide))]
 
-/-- the selected generators are independent, for every `L ≥ 1` -/
-theorem indep_sel {L : Nat} (hL : 1 ≤ L) : IndepGenerators (lattice L L) (sel L) :=
-  indep_of_triangular (triangular hL)
+/-- the selected generators are independent, for every `Lx, Ly ≥ 1` -/
+theorem indep_sel {Lx Ly : Nat} (hx : 1 ≤ Lx) (hy : 1 ≤ Ly) : IndepGenerators (lattice Lx Ly) (sel Lx Ly) :=
+  indep_of_triangular (triangular hx hy)
 
 end Panqec.Color488Code
